@@ -138,6 +138,12 @@ def match_schemas(w_schema, r_schema, named_schemas):
         elif w_type not in AVRO_TYPES and r_type in NAMED_TYPES:
             if match_types(w_type, r_schema["name"], named_schemas):
                 return r_schema["name"]
+        elif w_type in NAMED_TYPES and r_type not in AVRO_TYPES:
+            # The writer defines the type here while the reader only refers to
+            # a definition it gave elsewhere
+            r_definition = named_schemas["reader"].get(r_type)
+            if r_definition is not None:
+                return match_schemas(w_schema, r_definition, named_schemas)
         elif match_types(w_type, r_type, named_schemas):
             return r_schema
         raise SchemaResolutionError(error_msg)
